@@ -117,6 +117,17 @@ func ruleWAddr(c *Ctx) {
 				okEmb = true
 			}
 		}
+		// or: one predicate on the accumulator that compares bytes 21..25 with the first four bytes of
+		// SHA256d(bytes 0..21) one by one, and that every success of validA58 has seen true
+		if !(okSha && okCopySha && okEmb) {
+			if v := c.P.Func("bscript", "", "validA58"); v != nil {
+				if why := validatorChecksumByLoop(c, v); why == "" {
+					okSha, okCopySha, okEmb = true, true, true
+				} else if why != "-" {
+					calls = append(calls, why)
+				}
+			}
+		}
 		c.Check(okSha && okCopySha, "W-addr", "a25.computeChecksum", token.NoPos, "SHA256d over version . hash (bytes 0..21), first four bytes (the result array holds four)", "the validator no longer computes the checksum over bytes 0..21: "+strings.Join(calls, "; "))
 		c.Check(okEmb, "W-addr", "a25.embeddedChecksum", token.NoPos, "the embedded checksum is bytes 21..25", "the validator no longer reads the embedded checksum from bytes 21..25: "+strings.Join(calls, "; "))
 	}
@@ -244,4 +255,68 @@ func addressPayload(c *Ctx, fn *ssa.Function, mainnet bool, depth int) (*Lay, st
 		}
 	}
 	return unk("no call to the Base58Check encoder"), ""
+}
+
+// validatorChecksumByLoop: "" when every success return of validA58 is dominated by a true result of a
+// boolean helper on the accumulator whose body is the elementwise comparison A[21:25] == Sha256d(A[0:21])[0:4];
+// "-" when there is no such helper call at all.
+func validatorChecksumByLoop(c *Ctx, v *ssa.Function) string {
+	var helperCall *ssa.Call
+	var eq *rangeEq
+	for _, b := range v.Blocks {
+		for _, ins := range b.Instrs {
+			if call, ok := ins.(*ssa.Call); ok {
+				if sc := call.Call.StaticCallee(); sc != nil && inScope(pkgPathOf(sc)) && len(call.Call.Args) == 1 {
+					if e := elementwiseEq(sc); e != nil {
+						helperCall, eq = call, e
+					}
+				}
+			}
+		}
+	}
+	if helperCall == nil {
+		return "-"
+	}
+	sc := helperCall.Call.StaticCallee()
+	env := newTermEnv()
+	xt, yt := atomName(env.Term(eq.X)), atomName(env.Term(eq.Y))
+	if xt != "p0" || eq.XLo != 21 || eq.XHi != 25 {
+		return "the checksum predicate " + funcName(sc) + " compares " + xt + fmt.Sprintf("[%d:%d]", eq.XLo, eq.XHi) + ", not bytes 21..25 of the decoded address"
+	}
+	if yt != "github.com/libsv/go-bk/crypto.Sha256d(p0[0:21])" || eq.YLo != 0 || eq.YHi != 4 {
+		return "the checksum predicate " + funcName(sc) + " compares with " + yt + fmt.Sprintf("[%d:%d]", eq.YLo, eq.YHi) + ", not the first four bytes of SHA256d(bytes 0..21)"
+	}
+	// every success return of validA58 has seen the predicate true
+	n := 0
+	for _, b := range v.Blocks {
+		ret, ok := b.Instrs[len(b.Instrs)-1].(*ssa.Return)
+		if !ok || len(ret.Results) != 2 {
+			continue
+		}
+		if k, isK := ret.Results[0].(*ssa.Const); !isK || k.Value == nil || !constant.BoolVal(k.Value) {
+			continue
+		}
+		n++
+		seen := false
+		for _, dc := range dominatingConds(b) {
+			cond, truth := dc.cond, dc.truth
+			for {
+				u, ok := cond.(*ssa.UnOp)
+				if !ok || u.Op != token.NOT {
+					break
+				}
+				cond, truth = u.X, !truth
+			}
+			if cond == ssa.Value(helperCall) && truth {
+				seen = true
+			}
+		}
+		if !seen {
+			return "validA58 can report a valid address without " + funcName(sc) + " having returned true"
+		}
+	}
+	if n == 0 {
+		return "validA58 has no success return"
+	}
+	return ""
 }
